@@ -66,6 +66,8 @@ class FakeFile(object):
 class FakeRU(object):
     def __init__(self, store): self.store = store
     def ru_open(self, name, mode='r', **kw):
+        if 'w' in mode:
+            self.store.files[name] = ''          # open(.., 'w') truncates
         return FakeFile(self.store, name)
     def create_hostfile(self, *a, **k):
         g = ru.create_hostfile.__globals__
@@ -76,6 +78,23 @@ class FakeRU(object):
         finally:
             g['ru_open'] = saved
     def __getattr__(self, k): return getattr(ru, k)
+
+
+class FakeLMPath(object):
+    def __init__(self, store): self.store = store
+    def isfile(self, p): return p in self.store.files
+    def exists(self, p): return p in self.store.files
+    def __getattr__(self, k):
+        import os
+        return getattr(os.path, k)
+
+
+class FakeLMOS(object):
+    """`os` of a launch method module: the file system is the in-memory store"""
+    def __init__(self, store): self.path = FakeLMPath(store)
+    def __getattr__(self, k):
+        import os
+        return getattr(os, k)
 
 
 class RMI(dict):
@@ -162,6 +181,8 @@ def _lm(kind, flags, store):
     lm.init_from_info(dict(info))
     if hasattr(mod, 'ru'):
         mod.ru = FakeRU(store)
+    if hasattr(mod, 'os'):
+        mod.os = FakeLMOS(store)
     return lm
 
 
@@ -187,7 +208,7 @@ def read_cmd(kind, lm, cmd, files):
                cores=list|None (per rank))"""
     tok = cmd.split()
     out = {'procs': None, 'hosts': None, 'hostset': None, 'cores': None,
-           'cpus_per_task': None}
+           'cpus_per_task': None, 'offset': None}
     if kind == 'FORK':
         check(cmd == EXEC, 'fork command %r', cmd)
         out.update(procs=1, hosts=[lm.node_name])
@@ -258,6 +279,10 @@ def read_cmd(kind, lm, cmd, files):
                    cpus_per_task=int(cpt) if cpt else None)
     elif kind in ('APRUN', 'CCMRUN', 'IBRUN'):
         out['procs'] = int(_opt(tok, ['-n']))
+        if kind == 'IBRUN':
+            out['offset'] = int(_opt(tok, ['-o']))
+            out['tpn'] = int([t for t in tok if t.startswith(
+                              'IBRUN_TASKS_PER_NODE=')][0].split('=')[1])
     check(tok[-1] == EXEC, 'command %r does not run the exec script', cmd)
     return out
 
@@ -281,6 +306,18 @@ def verify(kind, lm, task, cmd, files):
                   '%s pins rank %s to %s:%s, placement says %s:%s', kind, i,
                   r['hosts'][i], r['cores'][i], s['node_name'],
                   [c['index'] for c in s['cores']])
+    if r['offset'] is not None:
+        # ibrun -o: task slot at which the first rank starts, counted over the
+        # pilot's node list: slots of the nodes before the first placement
+        # node plus the slot of the lowest core used on that node
+        first = min(s['node_index'] for s in slots)
+        cpr   = task['description']['cores_per_rank']
+        cmin  = min(s['cores'][0]['index'] for s in slots
+                    if s['node_index'] == first)
+        want_o = first * r['tpn'] + cmin // cpr
+        check(r['offset'] == want_o, 'ibrun offset -o %s, the placement starts '
+              'at slot %s (node %s, core %s, %s slots per node): %s',
+              r['offset'], want_o, first, cmin, r['tpn'], cmd)
     if r['cpus_per_task'] is not None:
         check(r['cpus_per_task'] == task['description']['cores_per_rank'],
               '%s --cpus-per-task %s, cores per rank %s', kind,
@@ -472,3 +509,60 @@ def h_find_launcher(node, ranks, mpi, order, local):
         check(t['slots'][0]['node_name'] == fk.node_name and ranks == 1,
               'FORK selected for a task on %s (executor runs on %s)',
               t['slots'][0]['node_name'], fk.node_name)
+
+
+# ------------------------------------------------------------------------------
+NODES_MANY = ['n%03d' % i for i in range(50)]
+
+
+@obligation(params={'n': (41, 45), 'shift': (0, 3), 'same_uid': 'bool',
+                    'cm0': (1, 15), 'cm1': (1, 15)},
+            shapes={'quick': [{'_ranges': {'cm0': (1, 3), 'cm1': (1, 3)}}],
+                    'thorough': [{}]},
+            timeout={'quick': 300, 'thorough': 900},
+            funcs=['radical/pilot/agent/launch_method/srun.py:'
+                   'Srun.get_launch_cmds',
+                   'radical/pilot/agent/launch_method/ibrun.py:'
+                   'IBRun.get_launch_cmds'],
+            bounds='srun with 41..45 ranks on as many distinct nodes (the '
+                   'node-list / node-file threshold is 42), generated after a '
+                   'command for a placement shifted by 0..3 nodes, for another '
+                   'task or for the same task uid (re-generation); ibrun with 2 '
+                   'ranks on 2 consecutive nodes with symbolic core masks')
+def h_many_nodes(n, shift, same_uid, cm0, cm1):
+    """node file contents follow the placement of the command at hand"""
+    n, shift = conc(n, 41, 45), conc(shift, 0, 3)
+    cm0, cm1 = conc(cm0, 1, 15), conc(cm1, 1, 15)
+    def task(uid, first):
+        slots = [{'node_name': NODES_MANY[first + i], 'node_index': first + i,
+                  'cores': [{'index': 0, 'occupation': 1.0}], 'gpus': [],
+                  'lfs': 0, 'mem': 0} for i in range(n)]
+        return {'uid': uid, 'slots': slots, 'task_sandbox_path': '/sbox/t0',
+                'description': {'executable': '/bin/true', 'ranks': n,
+                                'cores_per_rank': 1, 'gpus_per_rank': 0,
+                                'use_mpi': True, 'mem_per_rank': 0,
+                                'metadata': {}}}
+    st = Store()
+    lm = _lm('SRUN', 0, st)
+    ta = task('t0' if same_uid else 'tA', shift)
+    lm.get_launch_cmds(ta, '/sbox/t0/x.exec.sh')
+    tb = task('t0', 0)
+    cmd = lm.get_launch_cmds(tb, EXEC)
+    reach()
+    r = read_cmd('SRUN', lm, cmd, st.files)
+    check(r['procs'] == n, 'srun starts %s processes for %s ranks', r['procs'],
+          n)
+    check(r['hostset'] == set(NODES_MANY[:n]), 'srun names %s nodes, %s of '
+          'them outside the placement, %s of the placement missing',
+          len(r['hostset'] or []),
+          len((r['hostset'] or set()) - set(NODES_MANY[:n])),
+          len(set(NODES_MANY[:n]) - (r['hostset'] or set())))
+    # ibrun: two ranks on consecutive nodes, arbitrary first cores
+    st2 = Store()
+    ib  = _lm('IBRUN', 0, st2)
+    t2  = mk_task('t0', [1, 2], [cm0, cm1], 0)
+    t2['description']['cores_per_rank'] = 1
+    for s_, cm in zip(t2['slots'], (cm0, cm1)):
+        s_['cores'] = s_['cores'][:1]
+    cmd2 = ib.get_launch_cmds(t2, EXEC)
+    verify('IBRUN', ib, t2, cmd2, st2.files)
